@@ -213,6 +213,13 @@ SelSeq(s, P(_)) == LET F[i \in 0..Len(s)] == IF i = 0 THEN <<>> ELSE IF P(s[i]) 
 (* t = log tick of a write, now = clock tick of the reader.                    *)
 (* Result: [db |-> new state, r |-> reply].                                    *)
 Res(db, r) == [db |-> db, r |-> r]
+\* EXPIRE with a duration <= 0 (Redis: "the key is deleted", reply 1 for a live key).  In a model where
+\* expiry is a view this needs no rule of its own: the expiry instant t + d is simply not after the
+\* command's own log tick, so the key is dead for the command's own tick and every later one, and a
+\* command logged at an EARLIER tick (log time is not monotone) still sees it.  Outside the model only:
+\* the symbolic minimum (second count overflows) and an instant at or before tick 0 (tick 0 is the
+\* model's "no expiry" mark; the driver's tick 0 is a real second far from 0).
+PastOut(d, t) == d <= 0 /\ (d = IMIN \/ t + d < 1)
 PutKV(db, k, x) == [db EXCEPT !.kv[k] = x]
 
 \* generic collection extensions
@@ -223,7 +230,7 @@ DoCollExt(db, ty, op, k, a, t, now) ==
   IN CASE op = "clear"    -> IF CEmpty(ty, lv) THEN Res(db, RInt(0)) ELSE Res(PutC(db, ty, k, CGone(ty, raw)), RInt(1))
        [] op = "keyexist" -> Res(db, RInt(IF CEmpty(ty, rd) THEN 0 ELSE 1))
        [] op = "expire"   -> IF a[1] = IMAX THEN Res(db, RErr)      \* no representable expire time (Redis: invalid expire time)
-                             ELSE IF a[1] <= 0 THEN Res(db, ROut)
+                             ELSE IF PastOut(a[1], t) THEN Res(db, ROut)
                              ELSE IF CEmpty(ty, lv) THEN Res(db, RInt(0))
                              ELSE Res(PutC(db, ty, k, SetExp(lv, t + a[1])), RInt(1))
        [] op = "ttl"      -> Res(db, RInt(IF Policy = "wc" /\ ~CEmpty(ty, rd) /\ rd.exp # 0 THEN rd.exp - now ELSE -1))
@@ -295,7 +302,7 @@ DoKV(db, c, k, a, t, now) ==
                 l2 == KVLive(r2, t)
             IN Res(PutKV(d1, a[1], KVGone(r2)), RInt(n1 + (IF l2.has THEN 1 ELSE 0)))
        [] c = "expire" -> IF a[1] = IMAX THEN Res(db, RErr)
-                          ELSE IF a[1] <= 0 THEN Res(db, ROut)
+                          ELSE IF PastOut(a[1], t) THEN Res(db, ROut)
                           ELSE IF ~lv.has THEN Res(db, RInt(0)) ELSE Res(PutKV(db, k, SetExp(lv, t + a[1])), RInt(1))
        [] c = "persist" -> IF ~lv.has \/ (Policy = "wc" /\ lv.exp = 0) THEN Res(db, RInt(0))
                            ELSE IF Policy = "ld" THEN Res(db, RErr)       \* not supported (user guide)
